@@ -1,11 +1,23 @@
 #!/bin/bash
-# usage: tools/seed_run.sh <seed-id> <check args...>   -- apply the seed to /repo, run a check, always undo
+# usage: tools/seed_run.sh <seed-id> <check args...>
+# Runs a check against the seeded change.  The change is applied to a scratch worktree of /repo (under /tmp,
+# removed afterwards) and the check is pointed at it with VERIF_REPO, so /repo itself stays untouched and
+# long-running checks of the real tree are not disturbed.  SEED_INPLACE=1 applies to /repo itself instead.
 ID=$1; shift
 cd /verif
-git -C /repo diff --quiet || { echo "/repo not clean"; exit 2; }
-git -C /repo apply /verif/seeded/$ID/patch.diff || exit 2
-./check "$@" > /tmp/seedrun_$ID.log 2>&1; RC=$?
-git -C /repo checkout -- .
+if [ -n "$SEED_INPLACE" ]; then
+  git -C /repo diff --quiet || { echo "/repo not clean"; exit 2; }
+  git -C /repo apply /verif/seeded/$ID/patch.diff || exit 2
+  ./check "$@" > /tmp/seedrun_$ID.log 2>&1; RC=$?
+  git -C /repo checkout -- .
+else
+  WT=/tmp/seedwt_$ID
+  git -C /repo worktree remove --force $WT 2>/dev/null
+  git -C /repo worktree add -q --detach $WT HEAD || exit 2
+  git -C $WT apply /verif/seeded/$ID/patch.diff || { git -C /repo worktree remove --force $WT; echo "patch does not apply"; exit 2; }
+  VERIF_REPO=$WT ./check "$@" > /tmp/seedrun_$ID.log 2>&1; RC=$?
+  git -C /repo worktree remove --force $WT
+fi
 git -C /verif checkout -- evidence 2>/dev/null   # evidence written against a mutated tree is not evidence
 echo "exit=$RC"; grep -E "^VIOLATION|^KNOWN|HARNESS|^C[0-9]+ " /tmp/seedrun_$ID.log | head -8 | cut -c1-260
 grep -A1 "^VIOLATION" /tmp/seedrun_$ID.log | grep "unit=" | head -3 | cut -c1-400
